@@ -214,8 +214,13 @@ pub fn gen_machine(p: &mut Prng, cfg: &GenCfg) -> Machine {
                 let j = p.below(i as u64 + 1) as usize;
                 targets.swap(i, j);
             }
-            let k = if cfg.prob_one { 1 } else { (p.range(1, 3) as usize).min(targets.len()) };
-            let probs = gen_probs(p, k, cfg.prob_one);
+            let mut k = if cfg.prob_one { 1 } else { (p.range(1, 3) as usize).min(targets.len()) };
+            // now and then a list with as many entries as there are targets (up to 8: states + END + SIGNAL)
+            let long_list = !cfg.prob_one && targets.len() >= 5 && p.chance(1, 10);
+            if long_list {
+                k = targets.len().min(8);
+            }
+            let probs = if long_list { vec![0.125f32; k] } else { gen_probs(p, k, cfg.prob_one) };
             let mut v: Vec<Trans> = targets.iter().zip(probs.iter()).map(|(t, pr)| Trans(*t, *pr)).collect();
             let mut sum: f32 = 0.0;
             for x in v.iter() {
